@@ -4,6 +4,7 @@ import (
 	"context"
 	"errors"
 	"fmt"
+	"github.com/kercylan98/vivid/internal/verifhook"
 	"time"
 
 	"github.com/kercylan98/vivid"
@@ -101,6 +102,7 @@ func schedulerErrorConvert(err error) error {
 }
 
 func (s *Scheduler) tell(receiver vivid.ActorRef, message vivid.Message, options *vivid.ScheduleOptions) {
+	verifhook.At("sched.fire", message, options.Reference)
 	schedulerMessage := &SchedulerMessage{
 		Reference: options.Reference,
 		Message:   message,
